@@ -13,6 +13,11 @@ func ghost_queued() int { panic("ghost") }
 // the buffer holds (owns) the event t
 func ghost_buffered[T any](t *T) bool { panic("ghost") }
 
+//@ func NewMPSC : C05 C06 C01
+//@   assumed A-buffer (C16 is not applicable): creates an empty write buffer; the two capacities are package-level tunables of the cache computed at start-up and are not checked here
+//@   fresh
+//@   ensures [a-buffer-exists] result != nil
+
 //@ func (*MPSC).TryPush : C05 C06 C04
 //@   assumed C16 is not applicable; an accepted event is handed to the consumer exactly once
 //@   modifies ghost_queued(), ghost_buffered(t)
